@@ -288,6 +288,23 @@ def gen_spec(rng, ds):
     if ds.get("clim") is not None and rng.random() < 0.6:
         spec["clim"] = True
         spec["clim_type"] = rng.choice(["subtract", "divide"])
+    i0 = ds["inputs"][0]
+    allobs = all("obs" in i["has"] for i in ds["inputs"])
+    # (field overrides are not combined with -c/-C: which field of the climatology file then applies is undocumented)
+    if spec.get("clim"):
+        pass
+    elif spec["metric"] not in ("obs", "fcst") and rng.random() < 0.2:
+        choices = []
+        if allobs:
+            choices.append(("obs",))
+        if all(i["quantiles"] == i0["quantiles"] and i["quantiles"] for i in ds["inputs"]):
+            choices.append(("q", rng.choice(i0["quantiles"])))
+        if all("pit" in i["has"] for i in ds["inputs"]):
+            choices.append(("pit",))
+        if choices:
+            spec["fcst_field"] = list(rng.choice(choices))
+    elif spec["metric"] not in ("obs", "fcst") and rng.random() < 0.08:
+        spec["obs_field"] = ["fcst"]
     if rng.random() < 0.3:
         spec["leg"] = ["leg %d" % i if rng.random() < 0.5 else "L%d" % i for i in range(len(ds["inputs"]))]
     if rng.random() < 0.2:
@@ -298,8 +315,10 @@ def gen_spec(rng, ds):
 def run_semantic(desc, ctx):
     rng = random.Random("C13-sem-%s-%s" % (desc["seed"], desc["k"]))
     for ci in range(desc["n"]):
+        withq = rng.random() < 0.3
         ds = gen.make_dataset(rng, n_inputs=rng.choice([1, 2, 3]), clim=rng.random() < 0.3, miss=rng.choice([0.0, 0.1, 0.2]),
-                              integerish=rng.random() < 0.4, vrange=rng.choice([(-5, 20), (0, 6), (1, 15)]))
+                              integerish=rng.random() < 0.4, vrange=rng.choice([(-5, 20), (0, 6), (1, 15)]),
+                              prob=withq, pit=withq, thresholds=[0.0, 5.0], quantiles=[0.25, 0.75])
         d = os.path.join(ctx.workdir, "s%d" % ci)
         os.makedirs(d, exist_ok=True)
         paths, cpath = gen.materialize(ds, d, rng if rng.random() < 0.5 else None)
